@@ -142,7 +142,7 @@ class Gen:
             # one duplex connection with a reader and a writer fiber suspended on it at once; every reference is dropped
             self.note("duplex-two-ops")
             n = r.choice([300000, 700000, 1500000])
-            return ("(do (def path (string \"/tmp/c01-sock-\" (os/getpid) \"-%s\")) (def listener (net/listen :unix path)) (def client (net/connect :unix path)) "
+            return ("(do (def path (string \"/tmp/c01-sock-\" (os/getpid) \"-%s\")) (if (os/stat path) (os/rm path)) (def listener (net/listen :unix path)) (def client (net/connect :unix path)) "
                     "(def rd (ev/chan 1)) "
                     "(defn setup [] (def conn (net/accept listener)) (def payload (buffer/new-filled %d (chr \"x\"))) "
                     "(ev/go (fn [] (ev/write conn payload) (ev/close conn))) (ev/go (fn [] (ev/give rd (string (ev/read conn 4))))) nil) "
